@@ -11,7 +11,7 @@ N == Len(Rec)
 
 VARIABLES gen, store, via, blobs, net, issued, accepted, clock, last, l
 
-D == INSTANCE Deploy WITH Slots <- 1..3, Evil <- 3, ClaimSet <- 1..2, NoteSet <- 0..1, MaxNet <- 8, MaxBlobs <- 8, MaxClock <- 3, Weaken <- "none"
+D == INSTANCE Deploy WITH Slots <- 1..3, Evil <- 3, ClaimSet <- 1..2, NoteSet <- 0..1, Services <- {"a", "b"}, MaxNet <- 8, MaxBlobs <- 8, MaxClock <- 3, Weaken <- "none"
 
 dvars == <<gen, store, via, blobs, net, issued, accepted, clock, last>>
 E == Rec[l]
@@ -31,7 +31,7 @@ TAct ==
   /\ IsEvent("Act")
   /\ D!Do(D!Act(E.a, E.s, E.k, E.u, E.i, E.j, E.c, E.n, E.t))
   /\ last'.ok = E.ok
-  /\ last'.acc = [kind |-> E.acc.kind, key |-> E.acc.key, claims |-> E.acc.claims, note |-> E.acc.note]
+  /\ last'.acc = [kind |-> E.acc.kind, key |-> E.acc.key, claims |-> E.acc.claims, note |-> E.acc.note, aud |-> E.acc.aud]
   /\ store' = {[kind |-> e.kind, key |-> e.key] : e \in SetOf(E.store)}
 
 Matched == TReset \/ TAct
@@ -48,6 +48,6 @@ Mismatch ==
 TNext == Matched \/ Mismatch
 
 \* the design's invariants are evaluated in every state of every recorded behaviour
-TraceInv == D!Authentic /\ D!StoreTyped /\ D!ClosedChannels /\ D!ViaComplete
+TraceInv == D!Authentic /\ D!Addressed /\ D!StoreTyped /\ D!ClosedChannels /\ D!ViaComplete
 Done == l = N + 1 => PrintT(<<"DONE", l>>)
 =============================================================================
